@@ -356,6 +356,22 @@ def main():
                         pyviol.append((m, 'wkt_roundtrip', f'{how}({text!r}) != the shape that wrote it'))
         elif r[0] == 'Ok' and r[1] != obj:
             pyviol.append((m, 'wkt_roundtrip', 'z = 0 lost'))      # excused below by the D14 signature
+        # reading is a function of the text: after the first result has been updated in place (set_dt and
+        # set_property are in-place by default) the same text must again read as a fresh, time-less shape
+        if n % 3 == 0 and r[0] == 'Ok' and r2[0] == 'Ok':
+            for how, fn, first, caseop in (('Type.from_wkt', lambda: SIMPLE[kind].from_wkt(text), r[1], f'KRead {tag}'),
+                                           ('parse_wkt', lambda: parse_wkt(text), r2[1], 'KParseTok')):
+                first.set_dt(G.EPOCH)
+                first.set_property('seen', 1)
+                again = guarded(fn)
+                add(f'{caseop} {wl} {reslit(again, lambda s: G.obs_geom(s, Q))}', dict(m, op='read-again-after-update', how=how))
+                if again[0] != 'Ok' or again[1] is first or again[1].dt is not None or again[1]._properties != {}:
+                    pyviol.append((m, 'wkt_roundtrip', f'{how}({text!r}) read a second time, after the first result was updated in '
+                                                       f'place, gives {again[1] if again[0] != "Ok" else (again[1], again[1].dt, again[1]._properties)}: '
+                                                       'not a fresh shape equal to the first reading'))
+                    ck.count('reread-after-update:bad')
+                else:
+                    ck.count('reread-after-update:ok')
         # wrong type: every other reader must refuse with ValueError
         for other in TAG:
             if other != kind and n < 60:
